@@ -80,7 +80,14 @@ RULE = (
     'is judged right after its read_packet call (class, id, fields, raw '
     'stream offset = frame end) AND all returned objects are kept and '
     'judged again after the final None (class, id, every field), and no two '
-    'frames may have yielded the same object.')
+    'frames may have yielded the same object.  Part D, two connections in '
+    'one process (real Connection objects and networking threads on the '
+    'virtual network, canonical schedule): the first frame of connection 1 '
+    '(unknown id, 40 bytes; thorough also 200) arrives cut at EVERY '
+    'position, connection 2 receives {a keep-alive, an unknown frame, both} '
+    'in the gap, then the rest and a keep-alive arrive on connection 1; '
+    'without and with compression 64; each connection must deliver exactly '
+    'what its own server sent and answer exactly its own keep-alives.')
 ASSUMPTIONS = [
     'refproto.framing / refproto.cfb8 (self-tested against hand-made frames '
     'and the NIST CFB8 vector) define the wire format',
@@ -975,7 +982,139 @@ def chunked(items, weight, budget):
     return out
 
 
+# -- part D: two connections in one process -------------------------------------
+# "However the byte stream is split across socket reads": also when, between
+# two reads of one connection's frame, ANOTHER connection of the same process
+# reads a frame of its own.  Real Connection objects with their networking
+# threads on the virtual network (canonical schedule); connection 1's first
+# frame arrives cut at every position, connection 2 receives a frame in the
+# gap.  What each connection delivers must be exactly what its server sent.
+
+def two_body(W, cut, other, comp, lens):
+    from vf import protoids
+    from minecraft.networking.packets import Packet
+    T = 64 if comp else None
+    login = [('compress', 64), ('success',)] if comp else [('success',)]
+    W.serve(host='srv', login=login)
+    W.serve(host='srv2', login=login)
+    errs = []
+    logs = ([], [])
+
+    def describe(p):
+        return (type(p).__name__, p.id, getattr(p, 'keep_alive_id', None))
+    conns = []
+    for i, host in enumerate(('srv', 'srv2')):
+        c = W.connection(host=host, allowed_versions={V},
+                         handle_exception=lambda e, info, i=i: errs.append(
+                             (i, type(e).__name__, str(e)[:80])))
+        c.register_packet_listener(
+            lambda p, i=i: logs[i].append(describe(p)), Packet)
+        conns.append(c)
+    conns[0].connect()
+    W.settle()
+    conns[1].connect()
+    W.settle()
+    s1, s2 = W.servers[0], W.servers[1]
+    for lg in logs:
+        del lg[:]
+    ka = protoids.ids('play.keep_alive', V)
+    A = framing.frame(0x7D, bytes((i * 7 + 1) & 0xFF for i in range(lens[0])),
+                      T)
+    B = framing.frame(ka, codec.sint(4242, 8), T)
+    X = {'keepalive': framing.frame(ka, codec.sint(777, 8), T),
+         'unknown': framing.frame(0x7E, b'\x55' * lens[1], T),
+         'two': framing.frame(0x7E, b'\x55' * lens[1], T)
+         + framing.frame(ka, codec.sint(777, 8), T)}[other]
+    cut = min(cut, len(A) - 1)
+    s1.play(('rawbytes', A[:cut]))
+    W.settle()
+    s2.play(('rawbytes', X))
+    W.settle()
+    s1.play(('rawbytes', A[cut:] + B))
+    W.settle()
+    want1 = [('Packet', 0x7D, None), ('KeepAlivePacket', ka, 4242)]
+    want2 = {'keepalive': [('KeepAlivePacket', ka, 777)],
+             'unknown': [('Packet', 0x7E, None)],
+             'two': [('Packet', 0x7E, None),
+                     ('KeepAlivePacket', ka, 777)]}[other]
+    out = {'log1': logs[0], 'want1': want1, 'log2': logs[1], 'want2': want2,
+           'errs': list(errs), 'rx1': list(s1.play_rx), 'rx2': list(s2.play_rx),
+           'srv_errors': s1.errors[:2] + s2.errors[:2], 'cut': cut,
+           'lenA': len(A)}
+    for c in conns:
+        c.disconnect()
+    W.settle()
+    return out
+
+
+TWO_LENS = ((40, 9), (200, 70))
+
+
+def w_two(ctx, task):
+    from vf import harness
+    comp, other, lens, cuts = task
+    # (the compressed frame may be shorter; two_body clamps the cut)
+    for cut in cuts:
+        x = harness.run(lambda W: two_body(W, cut, other, comp, lens),
+                        horizon=60000)
+        ctx.count()
+        case = {'part': 'two', 'comp': comp, 'other': other, 'cut': cut,
+                'lens': list(lens)}
+        if x.failure is not None:
+            ctx.violation('two-connections %s comp=%d failure' % (other, comp),
+                          '%s: %s' % x.failure, case)
+            continue
+        r = x.result
+        if cut > r['cut']:
+            continue                    # same as the clamped cut
+        ctx.note_distinct(1)
+        ctx.cls('two connections: frame of one cut, frame of the other in '
+                'the gap')
+        bad = []
+        if [tuple(e) for e in r['log1']] != r['want1']:
+            bad.append('connection 1 delivered %r, its server sent %r'
+                       % (r['log1'], r['want1']))
+        if [tuple(e) for e in r['log2']] != r['want2']:
+            bad.append('connection 2 delivered %r, its server sent %r'
+                       % (r['log2'], r['want2']))
+        if r['errs'] or r['srv_errors']:
+            bad.append('errors %r %r' % (r['errs'], r['srv_errors']))
+        if ('keepalive', 4242) not in [tuple(e) for e in r['rx1']] or \
+                [tuple(e) for e in r['rx1']
+                 if e[0] == 'keepalive'] != [('keepalive', 4242)]:
+            bad.append('server 1 received the keep-alive answers %r, '
+                       'expected [4242]' % (r['rx1'],))
+        exp2 = [('keepalive', 777)] if other != 'unknown' else []
+        if [tuple(e) for e in r['rx2'] if e[0] == 'keepalive'] != exp2:
+            bad.append('server 2 received the keep-alive answers %r, '
+                       'expected %r' % (r['rx2'], exp2))
+        if bad:
+            ctx.violation(
+                'two-connections %s comp=%d' % (other, comp),
+                'two connections in one process, %s: connection 1\'s first '
+                'frame (%d bytes) arrives cut after %d bytes, connection 2 '
+                'receives %s in the gap: %s'
+                % ('compression 64' if comp else 'no compression',
+                   r['lenA'], r['cut'], other, '; '.join(bad)), case)
+
+
 def run(ctx):
+    _run(ctx)
+    if not ctx.violations:
+        tasks = []
+        for comp in (False, True):
+            for other in ('keepalive', 'unknown', 'two'):
+                for lens in (TWO_LENS if ctx.thorough else TWO_LENS[:1]):
+                    n = len(framing.frame(0x7D, bytes(lens[0]),
+                                          64 if comp else None)) + 8
+                    for lo in range(1, n, 4):
+                        tasks.append((comp, other, lens,
+                                      list(range(lo, min(lo + 4, n)))))
+        ctx.pmap(w_two, tasks)
+        ctx.extra['two_connection_cases'] = len(tasks)
+
+
+def _run(ctx):
     M()
     seed = ctx.seed
     rnd = random.Random('c01-order-%d' % seed)
@@ -1026,6 +1165,14 @@ def run(ctx):
 
 
 def replay(ctx, case):
+    if case.get('part') == 'two':
+        sub = ctx.fork()
+        w_two(sub, (case['comp'], case['other'], tuple(case['lens']),
+                    [case['cut']]))
+        for key, rec in sub.violations.items():
+            ctx.violation(key, rec['what'], rec['case'])
+        ctx.count()
+        return
     M()
     T = case['T']
     seed = case['seed']
